@@ -5,7 +5,7 @@ A cut `names = __cut__(id, names..., extras...)` is inserted after the LAST assi
 The instrumented function is compiled with the original file name and line numbers and executed in the function's own
 module globals (a shallow copy, so that the module itself is untouched).
 """
-import ast, inspect, textwrap, hashlib
+import os, ast, inspect, textwrap, hashlib
 import z3
 from .core import C, Unsupported
 
@@ -21,8 +21,37 @@ def cut(cut_id):
     return deco
 
 
-def _cut_hook(cut_id, *a):
-    return CUTS[cut_id](cut_id, *a)
+def _cut_hook(cut_id, *a, __live__=None):
+    """runs the lemma cut; afterwards every other live local of the function that still mentions an abstracted definition is rewritten to the
+    fresh symbols as well (a shared subexpression hoisted above the cut point must not keep the forgotten definitions alive)"""
+    import numpy as np
+    from .core import Sym, P
+    ctx = C()
+    n0 = len(ctx.cutdefs)
+    out = CUTS[cut_id](cut_id, *a)
+    if __live__ is not None and len(ctx.cutdefs) > n0:
+        pairs = []
+        for d in ctx.cutdefs[n0:]:
+            if z3.is_app(d) and d.decl().kind() == z3.Z3_OP_EQ:
+                fr, actual = d.arg(0), d.arg(1)
+                # a compound term, or a symbol introduced by an earlier cut (name with '!'); never a harness input symbol or a numeral:
+                # postconditions differentiate with respect to the inputs, they must stay visible
+                if z3.is_app(actual) and (actual.num_args() > 0 or (actual.decl().kind() == z3.Z3_OP_UNINTERPRETED and "!" in actual.decl().name())):
+                    pairs.append((actual, fr))
+        if pairs:
+            new_ids = {id(o) for o in (out if isinstance(out, tuple) else (out,))}
+            for v in list(__live__.values()):
+                if isinstance(v, Sym) and id(v) not in new_ids and v.dtype.is_floating_point:
+                    p = P(v)
+                    if not p.flags.writeable:
+                        continue
+                    for idx in np.ndindex(*p.shape):
+                        t = p[idx]
+                        if z3.is_expr(t) and z3.is_app(t):
+                            t2 = z3.substitute(t, *pairs)
+                            if not z3.eq(t2, t):
+                                p[idx] = t2
+    return out
 
 
 def _assert_hook(cond):
@@ -55,6 +84,60 @@ def source_hash(func):
         return "?"
 
 
+REFSRC_DIR = os.path.join(os.path.dirname(os.path.dirname(os.path.abspath(__file__))), "refsrc")
+RENAMED = []
+
+
+def _shape(node):
+    """AST dump with every local identifier blanked (alpha-equivalence class of a statement)"""
+    class Blank(ast.NodeTransformer):
+        def visit_Name(self, n):
+            return ast.copy_location(ast.Name(id="_", ctx=n.ctx), n)
+    import copy
+    return ast.dump(Blank().visit(copy.deepcopy(node)), annotate_fields=False)
+
+
+def _simple_statements(tree):
+    out = []
+    for n in ast.walk(tree):
+        if isinstance(n, (ast.Assign, ast.AugAssign, ast.AnnAssign, ast.Return, ast.Expr, ast.Raise, ast.Assert)):
+            out.append(n)
+        elif isinstance(n, (ast.If, ast.While)):
+            out.append(n.test)
+    out.sort(key=lambda n: (getattr(n, "lineno", 0), getattr(n, "col_offset", 0)))
+    return out
+
+
+def recover_renames(ref_src, cur_tree):
+    """local variables that were merely renamed since the reference source was recorded: statements of the two versions are aligned by their
+    alpha-equivalence class (difflib on the blanked dumps); identically shaped statements vote for old-name -> new-name pairs; a pair is
+    accepted when it wins a clear majority and is consistent.  -> {old: new} (only entries with old != new)"""
+    import difflib, collections
+    try:
+        ref_tree = ast.parse(textwrap.dedent(ref_src))
+    except SyntaxError:
+        return {}
+    a, b = _simple_statements(ref_tree), _simple_statements(cur_tree)
+    sa, sb = [_shape(x) for x in a], [_shape(x) for x in b]
+    votes = collections.defaultdict(collections.Counter)
+    for blk in difflib.SequenceMatcher(None, sa, sb, autojunk=False).get_matching_blocks():
+        for k in range(blk.size):
+            na = [n.id for n in ast.walk(a[blk.a + k]) if isinstance(n, ast.Name)]
+            nb = [n.id for n in ast.walk(b[blk.b + k]) if isinstance(n, ast.Name)]
+            if len(na) == len(nb):
+                for x, y in zip(na, nb):
+                    votes[x][y] += 1
+    out = {}
+    for old, cnt in votes.items():
+        (new, top), *rest = cnt.most_common(2) + [(None, 0)]
+        second = rest[0][1] if rest else 0
+        if new != old and top >= 1 and top > 2 * second and cnt.get(old, 0) == 0:
+            out[old] = new
+    # a new name must not be claimed by two old names
+    inv = collections.Counter(out.values())
+    return {o: n for o, n in out.items() if inv[n] == 1}
+
+
 def instrument(func, cuts=(), rewrite_asserts=True):
     """cuts: [(anchor_name, cut_id, names, extras)] -> instrumented function object"""
     func = inspect.unwrap(func)
@@ -62,6 +145,22 @@ def instrument(func, cuts=(), rewrite_asserts=True):
     tree = ast.parse(src)
     fdef = tree.body[0]
     fdef.decorator_list = []
+    # reference source (recorded on the unchanged tree with --update-ledger): lets the cut anchors follow pure renames of local variables
+    ref_path = os.path.join(REFSRC_DIR, func.__module__ + "." + func.__qualname__ + ".py")
+    renames = {}
+    if cuts:
+        if os.environ.get("TSV_SAVE_REFSRC") == "1":
+            os.makedirs(REFSRC_DIR, exist_ok=True)
+            with open(ref_path, "w") as fh:
+                fh.write(src)
+        elif os.path.exists(ref_path):
+            ref_src = open(ref_path).read()
+            if ref_src != src:
+                renames = recover_renames(ref_src, tree)
+                if renames:
+                    RENAMED.append({"function": func.__qualname__, "renamed": dict(renames)})
+    cuts = [(renames.get(a.split("#")[0].rstrip("[]"), a.split("#")[0].rstrip("[]")) + a[len(a.split("#")[0].rstrip("[]")):], cid,
+             [renames.get(n, n) for n in names], [renames.get(n, n) for n in extra]) for a, cid, names, extra in cuts]
     for anchor, cut_id, names, extra in cuts:
         best = None
         want = None
@@ -100,7 +199,20 @@ def instrument(func, cuts=(), rewrite_asserts=True):
             UNBOUND.append((func.__qualname__, anchor, cut_id))
             continue
         bl, i, _, st = best
-        text = f"{', '.join(names)}{',' if len(names) == 1 else ''} = __cut__({cut_id!r}, {', '.join(names + extra)})"
+        # the lemma speaks about all of `names`: insert after the LAST statement of this block that assigns any of them (independent blocks
+        # may have been reordered), never before the anchor
+        def _assigned(stm):
+            out = set()
+            tgs = stm.targets if isinstance(stm, ast.Assign) else ([stm.target] if isinstance(stm, (ast.AugAssign, ast.AnnAssign)) else [])
+            for tg in tgs:
+                for n in ast.walk(tg):
+                    if isinstance(n, ast.Name): out.add(n.id)
+            return out
+        for j in range(len(bl) - 1, i, -1):
+            if _assigned(bl[j]) & set(names):
+                i, st = j, bl[j]
+                break
+        text = f"{', '.join(names)}{',' if len(names) == 1 else ''} = __cut__({cut_id!r}, {', '.join(names + extra)}, __live__=locals())"
         call = ast.parse(text).body[0]
         for n in ast.walk(call):
             ast.copy_location(n, st)
